@@ -280,6 +280,20 @@ func c04Run(c *Ctx) {
 		return
 	}
 	args := c04Vector(r, d)
+	var added []*apiOpt
+	if c.K%7 == 2 {
+		// options registered through the public AddOption API (no struct field behind them) are declarations the
+		// library accepts: mention them in every shape among the hostile tokens
+		ar := c.Sub("api")
+		added = addAPIOptions(ar, b, false)
+		special = "api-added-options"
+		pool := apiHostileTokens(ar, added)
+		for i, n := 0, ar.Range(0, 4); i < n; i++ {
+			j := ar.Intn(len(args) + 1)
+			args = append(args[:j], append([]string{pool[ar.Intn(len(pool))]}, args[j:]...)...)
+		}
+		c.Note("added", describeAPI(added))
+	}
 	c.Case(func() interface{} {
 		a := args
 		if len(a) > 40 {
